@@ -21,6 +21,7 @@ type goPanic struct { // a run-time panic in the program under test
 	msg string
 	fn  string
 	pos string
+	val Value // the value given to panic(), if any (what recover() returns)
 }
 
 type engineErr struct { // engine problem: unsupported, bound exceeded, nondeterminism
@@ -84,6 +85,7 @@ type frame struct {
 }
 
 type Interp struct {
+	panicking *goPanic // set while deferred calls run because of a panic (recover() clears it)
 	rwCond *Obj // the Condition object behind go-runewidth's DefaultCondition (created on first use in a path)
 	jsonErr string // set by jsonValue when encoding/json rejects a value (NaN, infinities)
 	prog    *ssa.Program
@@ -958,14 +960,68 @@ func (in *Interp) callFn(fn *ssa.Function, args []Value, env []Value) Value {
 	for i, fv := range fn.FreeVars {
 		fr.setv(fv, env[i])
 	}
-	r := in.run(fr)
+	r := in.runWithDefers(fr)
 	in.stack = in.stack[:len(in.stack)-1]
 	in.depth--
 	return r
 }
 
+// runWithDefers runs a frame; when the program under test panics inside it, the frame's deferred calls
+// run (as in Go), and if one of them recovers, execution continues at the function's recover block
+// (named results as they stand) - otherwise the panic travels on to the caller.
+func (in *Interp) runWithDefers(fr *frame) (result Value) {
+	depth, nstack := in.depth, len(in.stack)
+	defer func() {
+		r := recover()
+		if r == nil {
+			return
+		}
+		gp, ok := r.(goPanic)
+		if !ok || len(fr.defers) == 0 {
+			panic(r)
+		}
+		in.depth, in.stack = depth, in.stack[:nstack]
+		saved := in.panicking
+		in.panicking = &gp
+		ds := fr.defers
+		fr.defers = nil
+		for i := len(ds) - 1; i >= 0; i-- {
+			ds[i]() // a panic in a deferred call replaces the current one (travels up from here)
+		}
+		recovered := in.panicking == nil
+		in.panicking = saved
+		if !recovered {
+			panic(gp)
+		}
+		if fr.fn.Recover == nil {
+			result = in.zeroResults(fr.fn)
+			return
+		}
+		result = in.runFrom(fr, fr.fn.Recover)
+	}()
+	return in.run(fr)
+}
+
+func (in *Interp) zeroResults(fn *ssa.Function) Value {
+	res := fn.Signature.Results()
+	switch res.Len() {
+	case 0:
+		return nil
+	case 1:
+		return in.zero(res.At(0).Type())
+	}
+	tv := make(TupleV, res.Len())
+	for i := range tv {
+		tv[i] = in.zero(res.At(i).Type())
+	}
+	return tv
+}
+
 func (in *Interp) run(fr *frame) Value {
-	b := fr.fn.Blocks[0]
+	return in.runFrom(fr, fr.fn.Blocks[0])
+}
+
+func (in *Interp) runFrom(fr *frame, b *ssa.BasicBlock) Value {
 	for {
 		var next *ssa.BasicBlock
 		// phis first (parallel assignment)
@@ -1032,7 +1088,7 @@ func (in *Interp) run(fr *frame) Value {
 						msg = "panic: value of type " + iv.t.String()
 					}
 				}
-				panic(goPanic{msg: msg, fn: fr.fn.String(), pos: in.prog.Fset.Position(x.Pos()).String()})
+				panic(goPanic{msg: msg, fn: fr.fn.String(), pos: in.prog.Fset.Position(x.Pos()).String(), val: v})
 			case *ssa.RunDefers:
 				for i := len(fr.defers) - 1; i >= 0; i-- {
 					fr.defers[i]()
@@ -1897,7 +1953,17 @@ func (in *Interp) builtin(fr *frame, site ssa.Instruction, b *ssa.Builtin, args 
 	case "print", "println":
 		return nil
 	case "recover":
-		return IfaceV{} // panics are path outcomes here: nothing is ever recovered
+		// (approximation: any recover() reached while deferred calls run because of a panic stops it,
+		// not only one called directly by the deferred function)
+		if in.panicking == nil {
+			return IfaceV{}
+		}
+		gp := in.panicking
+		in.panicking = nil
+		if iv, ok := gp.val.(IfaceV); ok {
+			return iv
+		}
+		return in.newError(in.mkStr(gp.msg)) // run-time panics: an error value carrying the message
 	case "min", "max":
 		r := args[0].(*Term)
 		signed := true
